@@ -439,7 +439,7 @@ class SDiff:
 
     def __eq__(self, o):
         if isinstance(o, SDiff):
-            return SLin.lift(self.a) + SLin.lift(o.b) == (SLin.lift(self.b) + SLin.lift(o.a)).to_sint() if False else _lin_eq(SLin.lift(self.a) + SLin.lift(o.b), SLin.lift(self.b) + SLin.lift(o.a))
+            return _lin_eq(SLin.lift(self.a) + SLin.lift(o.b), SLin.lift(self.b) + SLin.lift(o.a))
         if isinstance(o, (int, _np.integer)) and not isinstance(o, bool):
             if o >= 0:
                 return _lin_eq(SLin.lift(self.a), SLin.lift(self.b) + int(o))
